@@ -1,6 +1,8 @@
 // C04 - every decoding path yields the specified output for every valid frame.
 // The same frame goes through every decode path of every decoder BUILD VARIANT linked into this one binary
 // (symbols renamed per variant by objcopy), and is compared with the independent decoder R.
+#define ZDICT_STATIC_LINKING_ONLY
+#include "zdict.h"
 #include "stream_engine.hpp"
 #include "conformance.hpp"
 #include "framesynth.hpp"
@@ -218,12 +220,34 @@ void vf_case(vf::Ctx& c) {
         { std::vector<gen::PV> kk; for (auto& q : ps.v) if (q.p != ZSTD_c_format) kk.push_back(q); ps.v = kk; }
         if (gen::estimate_mem(ps) > (400ull << 20)) c.discard("memcap");
         gen::apply_params(k.c, ps, &c);
+        size_t odd_rep_hdr = 0;
         dict = t.flip() ? g_golden : gen::gen_content_sized(t, (size_t)t.range(8, 100000));
         if (dict.size() >= 4 && dict != g_golden && dict[0] == 0x37 && dict[1] == 0xA4) dict[0] = 1;
+        if (dict == g_golden && t.chance(60)) {
+            // the full dictionary with other start-of-frame repeat offsets than the trainers' {1,4,8} (the 12 bytes before its content)
+            size_t hs0 = ZDICT_getDictHeaderSize(dict.data(), dict.size());
+            if (!ZDICT_isError(hs0) && hs0 >= 20 && hs0 < dict.size()) {
+                size_t content = dict.size() - hs0;
+                for (unsigned i = 0; i < 3; i++) { uint32_t v = (uint32_t)t.range(1, std::min<size_t>(content, t.flip() ? 16 : 70000)); for (unsigned b = 0; b < 4; b++) dict[hs0 - 12 + 4 * i + b] = (uint8_t)(v >> (8 * b)); }
+                c.label("dictionary_with_odd_repeat_offsets");
+                odd_rep_hdr = hs0;
+            }
+        }
         int lvl = ps.get(ZSTD_c_compressionLevel, 3), strat = ps.get(ZSTD_c_strategy, 0);
         x = gen::gen_content(t, (lvl >= 16 || strat >= 7) ? (100u << 10) : (300u << 10));
         if (dict.size() > 300 && x.size() > 600) memcpy(&x[t.range(0, x.size() - 300)], &dict[dict.size() - 280], 280);
         if (t.chance(30) && gen::continue_dict_tail(t, dict, x)) c.label("content_continues_dictionary_tail");
+        if (odd_rep_hdr && t.chance(60)) {
+            // the frame's first match sits at the dictionary's 2nd or 3rd stored repeat offset, after a few literals: the encoder
+            // can only code it as a repeat offset if both sides start the frame with the same three values
+            unsigned kx = (unsigned)t.range(1, 2); uint32_t R = 0; for (unsigned b = 0; b < 4; b++) R |= (uint32_t)dict[odd_rep_hdr - 12 + 4 * kx + b] << (8 * b);
+            size_t q = (size_t)t.range(1, 8), L = (size_t)t.range(20, 300), dc = dict.size();
+            if (R >= 1 && R <= dc - odd_rep_hdr) {
+                if (x.size() < q + L) x.resize(q + L, (uint8_t)'y');
+                for (size_t i = q; i < q + L; i++) x[i] = i >= R ? x[i - R] : dict[dc - R + i];
+                c.label("content_starts_at_dictionary_repeat_offset_2_or_3");
+            }
+        }
         size_t r = ZSTD_CCtx_loadDictionary(k.c, dict.data(), dict.size());
         if (ZSTD_isError(r)) c.discard("dict_refused");
         frame.resize(ZSTD_compressBound(x.size()));
